@@ -146,7 +146,10 @@ def serve {J σ : Type} (T : Tables) (L : Lib J) (d : Disp σ J) : Bytes → σ 
 Both loops of `handle()` are `while self.running`: the line being processed is finished (the
 dispatcher is not interrupted, its further sends and the reply are skipped), no further line is
 taken out of the buffer, no further chunk is received.  The socket is a parameter: how many
-`sendall` calls still succeed.  What a failing `sendall` wrote before it raised is not modelled. -/
+`sendall` calls still succeed.  The call after these writes some bytes of its frame and raises (a time-out
+with the output buffer full, a reset …): `torn` is the frame handed to that call, `received` what the peer
+then has.  Whatever the socket would do with later calls is of no importance: `send_reply` tests
+`self.running` before it touches the socket, so there are none. -/
 
 structure SockSt where
   /-- number of `sendall` calls that will still succeed -/
@@ -161,6 +164,10 @@ def sendAll {α : Type} (s : SockSt) (frames : List α) : List α × SockSt :=
   else if frames.length ≤ s.left then (frames, ⟨s.left - frames.length, true⟩)
   else (frames.take s.left, ⟨0, false⟩)
 
+/-- the frame handed to the `sendall` call that fails, if the socket fails while `frames` are sent -/
+def tornOf {α : Type} (s : SockSt) (frames : List α) : Option α :=
+  if s.running then frames[s.left]? else none
+
 structure ServedF (J σ : Type) where
   /-- the frames delivered -/
   outs : List (Out J)
@@ -168,32 +175,41 @@ structure ServedF (J σ : Type) where
   sock : SockSt
   /-- number of lines taken out of the buffer and processed -/
   done : Nat
+  /-- the frame whose `sendall` raised (of which a part may have gone out) -/
+  torn : Option (Out J)
 
 /-- the inner loop `while self.running: msg = self.next_message() …` -/
 def serveLinesF {J σ : Type} (T : Tables) (L : Lib J) (d : Disp σ J) : SockSt → σ → List Bytes → ServedF J σ
-  | s, st, [] => ⟨[], st, s, 0⟩
+  | s, st, [] => ⟨[], st, s, 0, none⟩
   | s, st, l :: ls =>
-    if !s.running then ⟨[], st, s, 0⟩
+    if !s.running then ⟨[], st, s, 0, none⟩
     else
       let r := handleLine T L d st l
       let sent := sendAll s r.1
       let r' := serveLinesF T L d sent.2 r.2 ls
-      ⟨sent.1 ++ r'.outs, r'.st, r'.sock, r'.done + 1⟩
+      ⟨sent.1 ++ r'.outs, r'.st, r'.sock, r'.done + 1, (tornOf s r.1).or r'.torn⟩
 
 /-- `handle()` with a socket whose `sendall` may fail: the outer loop `while self.running` -/
 def serveF {J σ : Type} (T : Tables) (L : Lib J) (d : Disp σ J) : SockSt → Bytes → σ → List Bytes → ServedF J σ
-  | s, _, st, [] => ⟨[], st, s, 0⟩
+  | s, _, st, [] => ⟨[], st, s, 0, none⟩
   | s, buf, st, c :: cs =>
-    if !s.running then ⟨[], st, s, 0⟩
+    if !s.running then ⟨[], st, s, 0, none⟩
     else
       let f := feed buf c
       let r := serveLinesF T L d s st f.lines
       let r' := serveF T L d r.sock f.rest r.st cs
-      ⟨r.outs ++ r'.outs, r'.st, r'.sock, r.done + r'.done⟩
+      ⟨r.outs ++ r'.outs, r'.st, r'.sock, r.done + r'.done, r.torn.or r'.torn⟩
 
 /-- the byte strings handed to `sendall`, in order -/
 def wire {J : Type} (L : Lib J) (outs : List (Out J)) : List Bytes := outs.map (fun o => encodeFrame L o.msg)
 
 def replies {J : Type} (outs : List (Out J)) : List (Out J) := outs.filter (fun o => o.kind == .reply)
+
+/-- what the peer has received at the end of a run in which the failing `sendall` wrote `k` bytes of its
+frame before it raised: the frames delivered, then the first `k` bytes of the torn frame -/
+def received {J σ : Type} (L : Lib J) (r : ServedF J σ) (k : Nat) : Bytes :=
+  (wire L r.outs).flatten ++ (match r.torn with
+    | some o => (encodeFrame L o.msg).take k
+    | none => [])
 
 end Frappy.Wire
